@@ -523,10 +523,12 @@ fn run_ops(a: &Args) {
     // frame operation; natively for every format and N in {1,2,4}, through the model for seeded picks
     let mut lens: Vec<usize> = BIG.to_vec();
     for _ in 0..(if a.thorough() { 6 } else { 1 }) { lens.push(rng.range(1026, 20_000) as usize); }
+    // lengths beyond 2^16 and 2^17 (a length or index narrowed to 16 bits somewhere would show): native oracle only
+    lens.push(65_537);
     for name in OPS {
         let two = name != "equilibrium" && name != "map";
         for &len in lens.iter() {
-            for fmt in FMTS { for n in [1usize, 2, 4] { ops_one(&mut st, &mut rng, name, fmt, n, len, if two { len } else { 0 }, false); } }
+            for fmt in FMTS { if len > 20_000 && !matches!(fmt, "i16" | "f32" | "u8" | "i64") { continue; } for n in [1usize, 2, 4] { ops_one(&mut st, &mut rng, name, fmt, n, len, if two { len } else { 0 }, false); } }
             // through the model: quick up to 4099 frames (the list model is quadratic), thorough all
             if len <= 4099 || a.thorough() {
                 for _ in 0..(if a.thorough() { 2 } else { 1 }) {
